@@ -17,10 +17,19 @@ Fixpoint spell_t (its : list item) (tg : bytes) : bytes :=
   match its with [] => tg | it :: r => igap it ++ isrc it ++ spell_t r tg end.
 Definition spell (its : list item) : bytes := spell_t its [].
 
+(* text with its escapes removed: a backslash directly before "{{" or before a directive keyword goes *)
+Fixpoint unesc (s : bytes) : bytes :=
+  match s with
+  | [] => []
+  | c :: s' => if (c =? 92) && (prefixb [123; 123] s' || starts_directive s') then unesc s' else c :: unesc s'
+  end.
+
 (* the literal of a token spelled s: the spelling itself, except for a string - the text between
-   the quotes with each backslash-quote pair replaced by the quote (strings.ReplaceAll) *)
+   the quotes with each backslash-quote pair replaced by the quote (strings.ReplaceAll) - and for
+   text, whose escapes are removed *)
 Definition lit_of (ty : tok) (s : bytes) : bytes :=
-  if tok_eqb ty T_STR then replace_all [92; hd 0 s] [hd 0 s] (removelast (tl s)) else s.
+  if tok_eqb ty T_STR then replace_all [92; hd 0 s] [hd 0 s] (removelast (tl s))
+  else if tok_eqb ty T_HTML then unesc s else s.
 
 (* the token of type ty and literal lit whose first byte is at offset s and last byte at offset e *)
 Definition tokAt (input : bytes) (ty : tok) (lit : bytes) (s e : nat) : token :=
@@ -98,15 +107,27 @@ Definition pl_bytes (t : tok) (r : bytes) : bool :=
 Definition directive_ok (ty : tok) (s fol : bytes) : bool :=
   tok_eqb (lookupDirective s) ty && negb (tok_eqb ty T_ILLEGAL) && negb (pl_bytes ty fol).
 
-Fixpoint text_scan (s fol : bytes) : bool :=
+(* a text run: no "{{" and no directive keyword starts inside it, except directly after a backslash
+   (an escape: the two braces / the "@" are then plain text; the escaped braces and the whole keyword
+   must lie inside the run).  skip counts the escaped bytes still to pass. *)
+Fixpoint text_scan (skip : nat) (s fol : bytes) : bool :=
   match s with
-  | [] => true
-  | _ :: s' => negb (starts_directive (s ++ fol)) && negb (prefixb [123; 123] (s ++ fol)) && text_scan s' fol
+  | [] => Nat.eqb skip 0
+  | c :: s' =>
+    match skip with
+    | S k => text_scan k s' fol
+    | O =>
+      if c =? 92 then
+        if prefixb [123; 123] (s' ++ fol) then prefixb [123; 123] s' && text_scan 2 s' fol
+        else if starts_directive (s' ++ fol) then starts_directive s' && text_scan 1 s' fol
+        else text_scan 0 s' fol
+      else negb (starts_directive (s ++ fol)) && negb (prefixb [123; 123] (s ++ fol)) && text_scan 0 s' fol
+    end
   end.
 Definition text_end (fol : bytes) : bool :=
   match fol with [] => true | _ => prefixb [123; 123] fol || starts_directive fol end.
 Definition text_ok (s fol : bytes) : bool :=
-  negb (Nat.eqb (List.length s) 0) && text_scan s fol && text_end fol && negb (last s 0 =? 92).
+  negb (Nat.eqb (List.length s) 0) && text_scan 0 s fol && text_end fol && negb (last s 0 =? 92).
 
 Definition is1 (s : bytes) (c : N) : bool := bytes_eqb s [c].
 Definition is2 (s : bytes) (a b : N) : bool := bytes_eqb s [a; b].
